@@ -109,6 +109,7 @@ fn handle(ws: &[&str]) -> String {
         #[cfg(feature = "full")]
         ["chunk", lib, dir, sched] => chunk::chunk(lib, dir, sched),
         ["codec", lib, dir, hex] => codec::codec(lib, dir, hex),
+        ["mstream", exp, dir, hex] => codec::mstream(exp, dir, hex),
         ["dec", lib, dir, hex] => {
             let Some(bytes) = unhex(hex) else { return "bad-op".into() };
             MAX_REQ.store(0, Ordering::Relaxed);
